@@ -37,7 +37,7 @@ def guard_implies(event, cond):
 
 # ------------------------------------------------------------------ WHO
 def who(ctx, attr, allowed, kinds=("rebind", "elem", "mut", "del_elem", "del_attr"), minimum=1, rule="WHO", recv_filter=None,
-        label=None):
+        label=None, reset_ok=False):
     """attribute `attr` is stored only from the functions in `allowed` {qualname: reason}"""
     repo = ctx.repo
     sites = repo.writers_of(attr, kinds)
@@ -47,6 +47,10 @@ def who(ctx, attr, allowed, kinds=("rebind", "elem", "mut", "del_elem", "del_att
     for f, s in sites:
         ctx.touch(f)
         key = f"{f.qualname} / {rule} / {s['kind']} of .{attr}"
+        if reset_ok and isinstance(s["node"], ast.Assign) and isinstance(s["node"].value, ast.Constant) and s["node"].value.value in (0, 0.0, None) \
+                and not isinstance(s["node"].value.value, bool):
+            ctx.ok(rule, key, ctx.where(f, s["node"]), "reset to 0 / None (cannot invent a result)")
+            continue
         if f.qualname in allowed:
             found += 1
             ctx.ok(rule, key, ctx.where(f, s["node"]), f"allowed writer: {allowed[f.qualname]}")
